@@ -230,12 +230,20 @@ func VerifC16UserDict() {
 			}
 		}
 	}
+	// optionally a blank entry — an unfilled template block — closes the file: an unnamed entry
+	blank := vf.NondetIntRange("blank-entry", 0, 2)
+	switch blank {
+	case 1:
+		sb.WriteString("- {}\n")
+	case 2:
+		sb.WriteString("- name: \"\"\n  meta:\n    display: \"\"\n")
+	}
 	parsed, perr := ParseChords([]byte(sb.String()))
 	uattrs, aerr := ParseAttributes([]byte("- name: UserAttr\n  degree: \"b9\"\n"))
 	vf.Assert("user-attribute-file-parses", aerr == nil && len(uattrs) == 1)
 
 	// what must be refused
-	bad := false
+	bad := blank != 0
 	defined := func(name string) bool {
 		if name == "MinorTriad" || name == "MajorNinthAlias1" {
 			return true
